@@ -32,7 +32,7 @@
   ops.store: len checks, region tuple vs list, zip          pairUp                   (RegionsArg, PairErr)
   ops.store loop over _store_array + compute_arrays:
       in-place re-targeting of lazy sources, read proxies
-      captured at build time, late ArrayNotFoundError       retarget, movedTo, buildJobs, jobStale, jobResult,
+      captured at build time, stale reads = `broken`        retarget, movedTo, buildJobs, jobStale, jobResult,
                                                             storeOutcome, storeWorld   (Arrays, Pair, Job, Outcome)
   stored chunks a copy task touches (existing target)       chunksTouched
   decidable side conditions of the partial theorems         stepOne, nonNegBounds, chunksAgree,
@@ -343,9 +343,6 @@ structure Arrays where
   lazy : Nat → Bool
   /-- lazy arrays whose storage the plan of `a` reads; the read location was captured when `a` was built -/
   deps : Nat → List Nat
-  /-- `a.compute()` was called before the `store`: the original location of `a` exists and holds its values
-  (reading it stays correct even after `a` has been re-targeted) -/
-  computed : Nat → Bool := fun _ => false
 
 /-- One pair after `pairUp` and the per-pair checks. -/
 structure Pair where
@@ -399,19 +396,20 @@ inductive PairResult where
 inductive Outcome where
   /-- a ValueError at build time for pair `k`; nothing was computed -/
   | rejected (k : Nat)
-  /-- some op reads a location that no op writes (and that is never created): the computation raises midway -/
-  | lateError
+  /-- some op reads a location that its producer no longer writes: the call is outside the envelope in which the
+  model predicts anything.  On the implementation it raises midway (ArrayNotFoundError) or computes from fill
+  values, depending on the order in which the per-array plans are merged and on which locations happen to exist. -/
+  | broken
   | done (rs : List PairResult)
   deriving DecidableEq, Repr
 
-/-- `a`'s plan reads only locations that are still going to be written (or were written before the call). -/
+/-- `a`'s plan reads only locations that are still going to be written. -/
 def depsIntact (A : Arrays) (final : Moves) (a : Nat) : Bool :=
-  (A.deps a).all (fun d => (movedTo final d).isNone || A.computed d)
+  (A.deps a).all (fun d => (movedTo final d).isNone)
 
-/-- the location a copy op was built to read is the one the source's op finally writes, or the source's
-original location that an earlier `compute()` has filled -/
+/-- the location a copy op was built to read is the one the source's op finally writes -/
 def readOk (A : Arrays) (final : Moves) (s : Nat) (readAt : Option Nat) : Bool :=
-  !A.lazy s || readAt == movedTo final s || (readAt == none && A.computed s)
+  !A.lazy s || readAt == movedTo final s
 
 def jobStale (A : Arrays) (final : Moves) : Job → Bool
   | .moved s _ => !depsIntact A final s
@@ -426,17 +424,17 @@ def storeOutcome (A : Arrays) (pairs : List Pair) : Outcome :=
   match buildJobs A pairs [] 0 with
   | .error k => .rejected k
   | .ok (jobs, final) =>
-    if jobs.any (jobStale A final) then .lateError
+    if jobs.any (jobStale A final) then .broken
     else .done (jobs.map (jobResult final))
 
 /-- Storage after the call: locations hold `Option V`; `put p old` is the per-pair effect (the value
 of `p.src` written into `old` inside the pair's region), supplied by the per-pair theory.
-`none` = unspecified (a late error leaves partial writes). -/
+`none` = unspecified (see `Outcome.broken`). -/
 def storeWorld {V : Type} (A : Arrays) (pairs : List Pair) (put : Pair → Option V → V)
     (w : Nat → Option V) : Option (Nat → Option V) :=
   match storeOutcome A pairs with
   | .rejected _ => some w
-  | .lateError => none
+  | .broken => none
   | .done rs =>
     some ((pairs.zip rs).foldl (fun w' pr =>
       match pr.2 with
